@@ -4,7 +4,8 @@ import re
 import logging
 
 from .util import (Source, print_dump, get_marked_atribute, split_pkg,
-                   get_marked_name, get_marked_import, get_all_usages, join_pkg)
+                   get_marked_name, get_marked_import, get_all_usages, join_pkg,
+                   SOURCE_MARK)
 from .evaluator import EvalCtx
 from .nast import extract_scope
 
@@ -94,12 +95,21 @@ def location(project, source, position, filename=None, debug=False):
         if node:
             result = ctx.declarations(node, [])
 
+    def user_loc(n):
+        # positions come from the text with the cursor mark spliced in:
+        # shift the ones to the right of the cursor back
+        loc = n.declared_at
+        if (n.filename == source.filename and loc[0] == position[0]
+                and loc[1] >= position[1] + len(SOURCE_MARK)):
+            loc = loc[0], loc[1] - len(SOURCE_MARK)
+        return _loc(loc, n.filename)
+
     locs = []
     for r in result:
         if isinstance(r, list):
-            locs.append([_loc(n.declared_at, n.filename) for n in r])
+            locs.append([user_loc(n) for n in r])
         else:
-            locs.append(_loc(r.declared_at, r.filename))
+            locs.append(user_loc(r))
 
     return locs
 
